@@ -20,17 +20,32 @@ func ruleAccumulatorsExtended(w *World, r *Report) {
 		if tr == nil || !w.InModule(tr) {
 			continue
 		}
-		for _, f := range AnonClosure(tr) {
-			inTransformer[f] = true
+		// keys the transformer reads, directly or through module helpers it calls (two levels)
+		var scan func(f *ssa.Function, depth int)
+		seenScan := map[*ssa.Function]bool{}
+		scan = func(f *ssa.Function, depth int) {
+			if seenScan[f] {
+				return
+			}
+			seenScan[f] = true
 			for _, b := range f.Blocks {
 				for _, ins := range b.Instrs {
-					if c, ok := ins.(ssa.CallInstruction); ok {
-						if g, op := ctxKeyOf(c); g != nil && op == "Get" && g.Pkg == tr.Pkg {
-							consumed[g] = true
-						}
+					c, ok := ins.(ssa.CallInstruction)
+					if !ok {
+						continue
+					}
+					if g, op := ctxKeyOf(c); g != nil && op == "Get" && g.Pkg == tr.Pkg {
+						consumed[g] = true
+					}
+					if cal := c.Common().StaticCallee(); cal != nil && w.InModule(cal) && cal.Blocks != nil && cal.Pkg == tr.Pkg && depth < 2 {
+						scan(cal, depth+1)
 					}
 				}
 			}
+		}
+		for _, f := range AnonClosure(tr) {
+			inTransformer[f] = true
+			scan(f, 0)
 		}
 	}
 	readsKey := func(v ssa.Value, g *ssa.Global) bool {
@@ -114,5 +129,5 @@ func ruleAccumulatorsExtended(w *World, r *Report) {
 			r.Bad(key, pos, fmt.Sprintf("%s is consumed once per document by an AST transformer, and this Set stores a value that neither derives from what the key held nor is guarded by 'the key holds nil': what an earlier block of the document registered is overwritten, so that block is finished differently because a later one exists", s.g.Name()))
 		}
 	}
-	r.Expect("non-nil stores to document-level accumulators", len(sites), 3)
+	r.Expect("non-nil stores to document-level accumulators", len(sites), 2)
 }
